@@ -158,14 +158,16 @@ The parameter site (`extendFunctionEnv`) is driven for real by the `regrewrite` 
 `Grol.RegRewrite.registerEligible noReg f name = (name != "" && !noReg && f.hasRegisters && !isConstant name && !reservedName name)`
 is that text with `s.NoReg` ↦ `noReg`, `s.env.HasRegisters()` ↦ `f.hasRegisters`, `object.Constant` ↦ `isConstant`,
 `object.ReservedName` ↦ `reservedName` (`self`, `info`; the names of registered extension functions, the third kind, are
-told to the regrewrite suite per candidate by the harness).
+told to the regrewrite suite per candidate by the harness).  The loop site's last conjunct `!s.env.IsOwnFunctionName(name)` (repo fix
+0f85325: inside a named function its name means the function) is the counterpart of the parameter site's `!ownName`: both are
+outside `registerEligible` (the model has no function name; the hook's function has none) and are covered by the eval suite.
 The parameter test is the same conjunction without `name != ""` (the empty name is a constant name:
 `isConstant "" = true`), with the integer test (`isInt` in `useRegister`) and `!ownName` (the parameter is not
 named like the function itself; the hook's function has no name). A change of either expression fails here. -/
 namespace Grol.Generated.RegFacts
 
 theorem C05.loop_eligibility_pinned :
-    loopEligibility = ["name != \"\" && !s.NoReg && s.env.HasRegisters() && !object.Constant(name) && !object.ReservedName(name)"] := by decide
+    loopEligibility = ["name != \"\" && !s.NoReg && s.env.HasRegisters() && !object.Constant(name) && !object.ReservedName(name) && !s.env.IsOwnFunctionName(name)"] := rfl
 
 theorem C05.param_eligibility_pinned :
     paramEligibility = ["!s.NoReg && pval.Type() == object.INTEGER && env.HasRegisters() && !object.Constant(param.Value().Literal()) && !object.ReservedName(param.Value().Literal()) && !ownName"] ∧
